@@ -479,9 +479,18 @@ def run_faults(case):
         return res
     res.ok("honest:accepted-original")
 
-    def judge(reader, arg, fp_class, detail, amb_owner=None):
-        """soundness: accepted => original payload.  amb_owner: payload that may also be returned (statement-ambiguous)."""
+    def judge(reader, arg, fp_class, detail, amb_owner=None, strict=False):
+        """soundness: accepted => original payload.  amb_owner: payload that may also be returned (statement-ambiguous).
+        strict: the fault is one the statement says is REJECTED (parts out of order, missing, taken from another payload,
+        a corrupted bech32 character of body or checksum): being accepted - even with the original payload as the
+        result, e.g. out of a memo of an earlier parse - is a violation."""
         st, got = outcome_of(reader, arg, A)
+        if strict and st == "same":
+            res.violation(
+                f"C20/faults/{fp_class}/accepted-although-faulty", {"engine": "faults", "case": dict(case, detail=detail)}, "accepted (returns the original payload)",
+                "rejection", "faulty parts the statement says are rejected are accepted",
+            )
+            return None
         if st == "different" and amb_owner is not None and got == amb_owner:
             return "accepted-body-owner(all bodies swapped = other message with corrupted digest; not asserted)"
         if st == "different":
@@ -501,7 +510,7 @@ def run_faults(case):
                 if seq == list(range(n)):
                     continue
                 cls = seq_class(seq, n)
-                o = judge(multi, [parts[i] for i in seq], f"seq/{cls}", {"seq": seq})
+                o = judge(multi, [parts[i] for i in seq], f"seq/{cls}", {"seq": seq}, strict=(cls != "duplication" and not cls.startswith("dup")))
                 if o:
                     key = f"seq/{cls}:{o}"
                     cnt[key] = cnt.get(key, 0) + 1
@@ -554,7 +563,7 @@ def run_faults(case):
                         res.skip("foreign piece identical to the original piece")
                         continue
                     oname = "bch" if other.startswith("bch") else other
-                    o = judge(multi, msg, f"foreign-{what}/{oname}", {"S": list(S), "what": what}, amb)
+                    o = judge(multi, msg, f"foreign-{what}/{oname}", {"S": list(S), "what": what}, amb, strict=True)
                     if o:
                         deep = ref.classify(msg)
                         key = f"foreign-{what}/{oname}:{o}@ref:{deep[1] if deep[0] == 'bad' else 'ok'}"
@@ -562,7 +571,7 @@ def run_faults(case):
                     if n == 1 and what != "part":
                         # the same on the single-part form with digest
                         single = "ur:bytes/" + msg[0].split("/", 2)[2]
-                        o = judge(BCURSingle.parse, single, f"foreign-{what}/single/{oname}", {"S": list(S), "what": what, "form": "single"}, amb)
+                        o = judge(BCURSingle.parse, single, f"foreign-{what}/single/{oname}", {"S": list(S), "what": what, "form": "single"}, amb, strict=True)
                         if o:
                             key = f"foreign-{what}/single/{oname}:{o}"
                             cnt[key] = cnt.get(key, 0) + 1
@@ -637,7 +646,7 @@ def run_faults(case):
                 if c == target[pos]:
                     continue
                 bad = target[:pos] + c + target[pos + 1 :]
-                o = judge(reader, build(bad), f"subst/{form}/{fld}-char", {"pos": pos, "char": c})
+                o = judge(reader, build(bad), f"subst/{form}/{fld}-char", {"pos": pos, "char": c}, strict=(fld in ("body", "digest") and c in BECH))
                 if o:
                     inset = "bech32" if c in BECH else "other"
                     key = f"subst/{form}/{fld}[{inset}]:{o}"
